@@ -49,8 +49,9 @@ def detach_results(calc: Any) -> dict[str, Any]:
 def still_describes(remembered: dict[str, Any], results: dict[str, Any]) -> bool:
     """
     Whether every remembered entry is still among the calculator's results with the
-    same value. The calculator may meanwhile hold more (a property an observer asked
-    for), but what was remembered has not gone stale.
+    same value, up to rounding (a calculator asked again for the same configuration
+    need not reproduce the last bit). The calculator may meanwhile hold more (a
+    property an observer asked for), but what was remembered has not gone stale.
 
     Parameters
     ----------
@@ -69,7 +70,9 @@ def still_describes(remembered: dict[str, Any], results: dict[str, Any]) -> bool
 
     try:
         return all(
-            key in results and np.array_equal(value, results[key])
+            key in results
+            and np.shape(value) == np.shape(results[key])
+            and np.allclose(value, results[key], rtol=1e-10, atol=1e-12, equal_nan=True)
             for key, value in remembered.items()
         )
     except (TypeError, ValueError):
